@@ -337,8 +337,12 @@ def run_crashcut(case, ctx):
                         mf.write("%d\n" % idx)
                         mf.flush()
                         r = eval_one(k, kind, off, img, cls, full_load=(ctx.tier != "quick" or idx % 8 == 0))
-                        if r is None and k == len(images) - 1 and kind != "append_without_patch" and \
-                                (idx % stride == 0 or cls in ("torn_patch", "append_end")):
+                        # restart from the last intact snapshot: every image of the last write and of the
+                        # first append (restart from snapshot 0, steps_done == 0), a sample of the others
+                        edge = k in (1, len(images) - 1)
+                        if r is None and k >= 1 and kind != "append_without_patch" and \
+                                (idx % (stride if edge else 4 * stride + 1) == 0 or
+                                 (edge and cls in ("torn_patch", "append_end"))):
                             r = restart_one(k, kind, off, img)
                             out["counts"]["restart"] = out["counts"].get("restart", 0) + 1
                         out["counts"][cls] = out["counts"].get(cls, 0) + 1
